@@ -184,6 +184,7 @@ func monLock(mu *value, lock bool) {
 		return
 	}
 	if lock {
+		noteLockOrder(mu)
 		mon.held[mu] = true
 		if mu == mon.storeMu {
 			mon.curHasAcc = false
@@ -317,8 +318,56 @@ var (
 	pendingWho    = map[*value]string{}
 	ownStructs    = map[*value]bool{} // first cell of the acting connection's own objects
 	mutexNames    = map[*value]string{}
-	fieldLogTypes = map[string]bool{"clientState": true, "clientCxn": true, "redisStats": true, "cmdDispatcher": true, "dataStoreSet": true}
+	fieldLogTypes = map[string]bool{"clientState": true, "clientCxn": true, "redisStats": true, "cmdDispatcher": true, "dataStoreSet": true, "dataStore": true}
+	lockClass     = map[*value]string{}
+	lockInst      = map[*value]*value{}
+	lockOrderLog  = map[string]lockEdge{}
 )
+
+// lockEdge: while holding a lock of class From, the command labelled Label
+// acquired a lock of class To.
+type lockEdge struct {
+	From          string `json:"from"`
+	To            string `json:"to"`
+	OtherInstance bool   `json:"other_instance_of_the_same_class"`
+	Gate          bool   `json:"multiDataStoreLock_held"`
+	Label         string `json:"label"`
+}
+
+func lockName(mu *value) string {
+	if n, ok := mutexNames[mu]; ok {
+		return n
+	}
+	if n, ok := lockClass[mu]; ok {
+		return n
+	}
+	return "unnamed"
+}
+
+func noteLockOrder(mu *value) {
+	if !fieldLogOn {
+		return
+	}
+	gate := false
+	for h := range mon.held {
+		if mutexNames[h] == "multiDataStoreLock" {
+			gate = true
+		}
+	}
+	to := lockName(mu)
+	for h := range mon.held {
+		if h == mu {
+			continue
+		}
+		from := lockName(h)
+		other := from == to && lockInst[h] != lockInst[mu]
+		if from == to && !other {
+			continue
+		}
+		e := lockEdge{from, to, other, gate, fieldLabel}
+		lockOrderLog[fmt.Sprintf("%s|%s|%v|%v|%s", from, to, other, gate, fieldLabel)] = e
+	}
+}
 
 func noteFieldAddr(instrType types.Type, st structure, field int, cell *value) {
 	nt, ok := instrType.(*types.Named)
@@ -328,7 +377,23 @@ func noteFieldAddr(instrType types.Type, st structure, field int, cell *value) {
 	stt := nt.Underlying().(*types.Struct)
 	ft := stt.Field(field).Type().String()
 	if ft == "sync.Mutex" || ft == "sync.RWMutex" {
+		// remember which lock this is (for the lock-order log)
+		cls := nt.Obj().Name() + "." + stt.Field(field).Name()
+		if nt.Obj().Name() == "clientState" || nt.Obj().Name() == "clientCxn" {
+			if len(st) > 0 && ownStructs[&st[0]] {
+				cls += "(own)"
+			} else {
+				cls += "(other)"
+			}
+		}
+		lockClass[cell] = cls
+		if len(st) > 0 {
+			lockInst[cell] = &st[0]
+		}
 		return
+	}
+	if nt.Obj().Name() == "dataStore" {
+		return // only its mutex is of interest here
 	}
 	pendingField[cell] = nt.Obj().Name() + "." + stt.Field(field).Name()
 	switch {
